@@ -139,6 +139,10 @@ class SubsEval:
         if isinstance(e, (ast.ListComp, ast.GeneratorExp)) and len(e.generators) == 1 and not e.generators[0].ifs:
             g = e.generators[0]
             role = self.iter_role(e)
+            if scope.bound:
+                # inside an inlined helper the comprehension node stands for every call of the helper: the iteration inventory's role for the node
+                # is whichever call was seen last.  Not decidable in source form (the constructed generator decides)
+                raise Unsupported(f"comprehension over a helper parameter: {ast.unparse(e)[:60]}")
             if role is not None and isinstance(g.target, ast.Name):
                 return [self.pair(e.elt, scope, var=g.target.id, role=role)]
             inner = self.eval(g.iter, scope, depth + 1)
